@@ -301,6 +301,63 @@ fn run_cfg_case(kind: &str, v: u64) -> (String, String) {
                 }
             }
         }
+        "client_meta_encoder_len" | "server_meta_encoder_len" => {
+            // a metadata string the application hands to a session in the publishing / playing state
+            use super::sess::{decode_with_lib, SAct};
+            let mut md = rml_rtmp::sessions::StreamMetadata::new();
+            md.encoder = Some(text(v));
+            md.video_width = Some(640);
+            let mut de = ChunkDeserializer::new();
+            let packet = if kind == "client_meta_encoder_len" {
+                let (mut h, o) = match super::sess::ClientH::new(super::sess::default_client_cfg(), 1000) { Ok(x) => x, Err(e) => return broken(format!("client: {:?}", e)) };
+                let _ = decode_with_lib(&mut de, &o.packets);
+                for a in super::c10::prefixes()[5].1.iter() {
+                    let o = h.step(a);
+                    if !o.ok() {
+                        return broken(format!("preparing a publishing client: {:?}", o.err));
+                    }
+                    if let Err(e) = decode_with_lib(&mut de, &o.packets) {
+                        return broken(format!("preparing a publishing client: {}", e));
+                    }
+                }
+                match h.c.publish_metadata(&md) {
+                    Err(e) => return refused(format!("{:?}", e)),
+                    Ok(ClientSessionResult::OutboundResponse(p)) => p,
+                    Ok(_) => return broken("publish_metadata returned no packet".into()),
+                }
+            } else {
+                let (mut h, o) = match super::sess::ServerH::new(super::sess::default_server_cfg(), 1000) { Ok(x) => x, Err(e) => return broken(format!("server: {:?}", e)) };
+                let _ = decode_with_lib(&mut de, &o.packets);
+                for a in [SAct::Connect { tx: 1.0, app: "a".into() }, SAct::Accept { id: 0 }, SAct::CreateStream { tx: 2.0 }, SAct::Play { sid: 1, key: "k".into() }, SAct::Accept { id: 1 }] {
+                    let o = h.step(&a);
+                    if !o.ok() {
+                        return broken(format!("preparing a playing server: {:?}", o.err));
+                    }
+                    if let Err(e) = decode_with_lib(&mut de, &o.packets) {
+                        return broken(format!("preparing a playing server: {}", e));
+                    }
+                }
+                match h.s.send_metadata(1, &md) {
+                    Err(e) => return refused(format!("{:?}", e)),
+                    Ok(p) => p,
+                }
+            };
+            // the accepted string must arrive whole
+            match decode_with_lib(&mut de, &[(packet.bytes.clone(), packet.can_be_dropped)]) {
+                Err(e) => broken(format!("the metadata packet does not decode: {}", e)),
+                Ok(outs) => {
+                    let want = crate::refmodel::amf0::V::Str(text(v));
+                    let found = outs.iter().any(|o| match &o.m {
+                        crate::refmodel::msg::M::Data(vals) => vals.iter().any(|x| match x {
+                            crate::refmodel::amf0::V::Obj(props) => props.iter().any(|(k, val)| k == "encoder" && *val == want),
+                            _ => false,
+                        }),
+                        _ => false,
+                    });
+                    if found { ok("metadata with the string arrived") } else { broken(format!("the decoded metadata does not carry the {}-byte encoder string", v)) }
+                }
+            }
+        }
         "payload_len_server_send" | "payload_len_server_send_csmax" => {
             let mut cfg = ServerSessionConfig::new();
             if kind.ends_with("csmax") {
@@ -345,7 +402,7 @@ pub fn run(run: &Run) {
             cases.push((k.to_string(), v));
         }
     }
-    for k in ["fms_version_len", "flash_version_len", "tc_url_len", "app_len", "key_len"] {
+    for k in ["fms_version_len", "flash_version_len", "tc_url_len", "app_len", "key_len", "client_meta_encoder_len", "server_meta_encoder_len"] {
         for &v in len_vals.iter() {
             cases.push((k.to_string(), v));
             if v >= 14 {
